@@ -66,6 +66,9 @@ def generate(seed, tier, enlarged=False):
     # glob ports whose topology carries a '*' entry (oracle only: no '*' entries in the model's topologies)
     from harness import globtopo
     cases += [globtopo.gen_case(rng) for _ in range(n // 5)]
+    # what a port READS while the structure changes around it: the live stream of C07
+    from harness import live
+    cases += [live.gen_case(rng) for _ in range(n // 10)]
     return cases
 
 
@@ -162,4 +165,14 @@ def oracle(c, ob, rng):
 
 
 def run(cases, tier='quick', seed=0):
-    return common.generic_run(__import__('harness.c06', fromlist=['x']), cases, seed, shard=60)
+    from harness import live
+    me = __import__('harness.c06', fromlist=['x'])
+
+    class Live:
+        __name__ = 'harness.live'
+        IMPORTS, CHECK_FN, BAD_TERM = live.IMPORTS, live.CHECK_FN, live.BAD_TERM
+        run_impl, render, oracle = staticmethod(live.run_impl), staticmethod(live.render), staticmethod(live.oracle)
+        nontrivial, stat_key = staticmethod(live.nontrivial), staticmethod(live.stat_key)
+    return common.merge_streams(cases, [
+        (lambda c: c['kind'] != 'live', lambda cs: common.generic_run(me, cs, seed, shard=60)),
+        (lambda c: c['kind'] == 'live', lambda cs: common.generic_run(Live, cs, seed, shard=20))])
